@@ -353,6 +353,9 @@ func runLogs(ctx context.Context, w *vgen.Writer, r *vgen.Rand, o vgen.Opts, hc 
 		w.Tally(fmt.Sprintf("logs:resources=%d", len(resPool)))
 		w.Tally(fmt.Sprintf("logs:scopes=%d", len(scPool)))
 		w.Tally(fmt.Sprintf("logs:records=%d", (len(b.recs)+2)/3*3))
+		if twoSpellings(scPool) {
+			w.Tally("logs:shape:scope-spelled-two-ways")
+		}
 		if b.twin {
 			w.Tally("logs:shape:resources-differ-only-in-schema-url")
 		}
@@ -413,6 +416,10 @@ func logCorpus() []logBatch {
 	scT2 := &instrumentation.Scope{Name: "lib/a", Version: "v1", SchemaURL: "urn:s", Attributes: attribute.NewSet(attribute.String("tenant", "b"))}
 	out = append(out, logBatch{recs: []sdklog.Record{mk(1, res1, scA).newRecord(), mk(2, res1, scV).newRecord(), mk(3, res1, scU).newRecord(),
 		mk(4, res1, scT1).newRecord(), mk(5, res1, scT2).newRecord(), mk(6, res1, scT1).newRecord(), mk(7, res1, scA).newRecord()}, nres: 1, nscopes: 5})
+	// one scope, its empty attribute set spelled as the zero Set and as attribute.NewSet(): two Go map keys
+	scA2 := &instrumentation.Scope{Name: "lib/a", Version: "v1", SchemaURL: "urn:s", Attributes: attribute.NewSet()}
+	out = append(out, logBatch{recs: []sdklog.Record{mk(1, res1, scA).newRecord(), mk(2, res1, scA2).newRecord(), mk(3, res1, scA).newRecord(),
+		mk(4, res3, scA2).newRecord(), mk(5, res1, scA2).newRecord()}, nres: 2, nscopes: 2})
 	// exporter-level path: an empty batch
 	out = append(out, logBatch{})
 	// severity table and ids
